@@ -1,8 +1,13 @@
 """C14 — a descriptor claims a PSBT scope only when the script really is its own.
 
-Theorems: lean/EmbitModel/Props/C14.lean (owns_sound, never_claims, owns_complete, old_first_match_rejected_honest_scope over the model
-of Descriptor.owns / Key.check_derivation / AllowedDerivation.check_derivation, for every key list, every scope and
-every derive-script function). Tie to the code: ranged descriptors from harness/dgen.py; PSBT scopes are built with
+Theorems: lean/EmbitModel/Props/C14.lean (owns_sound, never_claims and its corollaries, owns_complete over the model of
+Descriptor.owns / Key.check_derivation / AllowedDerivation.check_derivation as it is AFTER fixes/owns-keeps-looking.diff,
+for every key list, every scope and every derive-script function; old_first_match_rejected_honest_scope is the witness
+of the repaired first-match defect, not a limitation of the present code) and lean/EmbitModel/Props/C14X.lean
+(owns_sound_parsed: the same soundness for every descriptor Descriptor.from_string returns, with no well-formedness
+or derive premise; owns_parsed_script_eq_spec: composed with C12 script_eq_spec; owns_raises_on_hardened_record: the
+region owns_complete excludes by NoRaise - owns() raises on an honest scope preceded by a hardened record for the same
+key, recorded as an observation, classes `mixed-hardened-then-correct` / `path-hardened-index` below). Tie to the code: ranged descriptors from harness/dgen.py; PSBT scopes are built with
 embit's own PSBT classes (and round-tripped through PSBT.serialize / PSBT.parse) carrying correct, foreign,
 partially matching and adversarially mixed derivation records and scripts of the same or another type; `owns()` of
 embit is diffed with the model (`desc.owns`). Independently of the model: SOUNDNESS (owns is True only if some
@@ -22,7 +27,7 @@ from embit.script import Script
 from embit import ec
 
 PROP = "C14"
-MODS = ["EmbitModel.Props.C14"]
+MODS = ["EmbitModel.Props.C14", "EmbitModel.Props.C14X"]
 HARD = dgen.HARD
 
 
@@ -422,8 +427,13 @@ def run(tier, seed):
               "records (foreign, stale, hardened before or after the correct one; both PSBT maps for taproot). Every case "
               "is distinct by (class, descriptor, script, records, scope)")
     c.assumptions = ["the recorded public keys and tap-leaf hashes of a scope are not read by owns(); they are dummy values",
-                     "completeness is demanded for honest scopes only (DESIGN Appendix D): with mixed records the first "
-                     "matching record decides (the pre-fix rule, theorem old_first_match_rejected_honest_scope)"]
+                     "completeness (theorem owns_complete; here: expect=True) is demanded of scopes that carry the descriptor's "
+                     "script and the honest record of a ranged key fixing the branch, whatever foreign or stale records precede "
+                     "or follow it (the code after fixes/owns-keeps-looking.diff keeps looking; the pre-fix first-match rule "
+                     "survives only as the witness old_first_match_rejected_honest_scope); the one excluded region is NoRaise: "
+                     "a record matching a key at a HARDENED index that is scanned before the honest one makes owns() raise "
+                     "ArgumentError (witness theorems owns_raises_on_hardened_record / parsed_owns_raises_on_hardened_record in "
+                     "Props/C14X.lean; class mixed-hardened-then-correct is checked for soundness and model agreement only)"]
     c.build_and_audit()
     pool = dgen.Pool(c.rng)
     pool.distinct_sets = True      # <a;a> makes the branch of a record ambiguous: outside the honest-scope claims
